@@ -15,7 +15,7 @@ INFO = {
                "fields, every field being the printer's rendering of the iterated element, header and rows share "
                "print_list, nothing reaches the output without passing the printer, the header-less error precedes "
                "any write; (e) every --select stage adds one title and forwards a context extended by exactly one "
-               "result on every path, so the number of fields equals the number of titles. with_result appends exactly one entry to the results on every path. One title per selection (a repeated name is a column of its own); the JSON structure rules for nested values; Clone impls field-wise; Context::build shape.",
+               "result on every path, so the number of fields equals the number of titles. with_result appends exactly one entry to the results on every path. One title per selection (a repeated name is a column of its own); the JSON structure rules for nested values; Clone impls field-wise; Context::build shape. No byte of option or input text becomes a character of a kept string by a bare `as char` cast (names are decoded as UTF-8).",
     "not_decided": "That every row has exactly N fields as a run-time count for arbitrary N (the separator guard is "
                    "decided for 1..3 fields), text-mode behaviour under arbitrary user-supplied separator / escape "
                    "options, and what an external csv reader does.",
